@@ -26,7 +26,9 @@ LENS = [64, 1024, 4096, 16384, 65536]
 
 
 def tspec(ng):
-    return {'dirs': DIRS, 'module': 'QueueMemTrace.tla', 'cfg': 'QueueMemTrace_%dgpu.cfg' % ng, 'timeout': 900,
+    # ng: 1, 2 (timing platform) or 'emu' (functional emulation: no caches, no flushes)
+    cfg = 'QueueMemTrace_emu.cfg' if ng == 'emu' else 'QueueMemTrace_%dgpu.cfg' % ng
+    return {'dirs': DIRS, 'module': 'QueueMemTrace.tla', 'cfg': cfg, 'timeout': 900,
             'signature': lambda bad, at, v: {'part': 'mem', 'ng': ng}}
 
 
@@ -46,14 +48,35 @@ def gen_prog(rng, q, n):
 
 
 def gen_scenario(rng, i, ng):
+    emu = ng == 'emu'
     nq = rng.choice([2, 2, 3])
     progs = [gen_prog(rng, q, rng.randrange(2, 6)) for q in range(1, nq + 1)]
     order = [q for q in range(1, nq + 1) for _ in progs[q - 1]]
     rng.shuffle(order)
-    home = [1] * (2 * nq) if ng == 1 else [1 if b % 2 else 2 for b in range(1, 2 * nq + 1)]
-    return {'name': 'rnd%d_%d' % (ng, i), 'ng': ng, 'nq': nq, 'gpu': [1] * nq, 'home': home,
-            'len': [rng.choice(LENS) for _ in range(nq)], 'progs': progs, 'order': order,
-            'drain': rng.choice(['seq', 'par', 'rev'])}
+    home = [1 if b % 2 else 2 for b in range(1, 2 * nq + 1)] if ng == 2 else [1] * (2 * nq)
+    lens = [rng.choice(LENS) for _ in range(nq)]
+    ctx = [1] * nq
+    if emu or rng.random() < 0.3:
+        # twins: every queue runs the same program on its own buffers, so the address spaces below have the same
+        # allocation history down to the staging buffers of every launch
+        def shift(o, q):
+            o = dict(o)
+            for f in ('b', 'dst', 'src'):
+                if f in o:
+                    o[f] += 2 * (q - 1)
+            if 'v' in o:
+                o['v'] += 10 * (q - 1)
+            return o
+        progs = [[shift(o, q) for o in progs[0]] for q in range(1, nq + 1)]
+        order = [q for q in range(1, nq + 1) for _ in progs[q - 1]]
+        rng.shuffle(order)
+    if emu or rng.random() < 0.5:
+        # one address space per queue and the same allocation history in each: the contexts use the same virtual
+        # addresses, only the PID tells them apart
+        ctx = list(range(1, nq + 1))
+        lens = [rng.choice([8192, 32768] if emu else LENS)] * nq
+    return {'name': 'rnd%s_%d' % (ng, i), 'ng': 1 if emu else ng, 'nq': nq, 'gpu': [1] * nq, 'home': home, 'len': lens,
+            'ctx': ctx, 'emu': emu, 'progs': progs, 'order': order, 'drain': rng.choice(['seq', 'par', 'rev'])}
 
 
 def directed(ng):
@@ -164,6 +187,8 @@ def run_component(ctx):
     # 1. design level
     r = ctx.tlc_expect_ok(DIRS, 'MC_QM.tla', 'MC_QM.cfg', workers=W, timeout=1800)
     ctx.log('MC_QM (2 queues, 1 GPU, every program of <= 3 / 2 operations ending in a read-back): %d distinct states' % r.distinct)
+    r = ctx.tlc_expect_ok(DIRS, 'MC_QM.tla', 'MC_QM_ctx.cfg', workers=W, timeout=1800)
+    ctx.log('MC_QM_ctx (one process per queue: marks are per process): %d distinct states' % r.distinct)
     r = ctx.tlc_expect_ok(DIRS, 'MC_QM.tla', 'MC_QM_2gpu.cfg', workers=W, timeout=1800)
     ctx.log('MC_QM_2gpu (second buffer of each queue on the other GPU): %d distinct states' % r.distinct)
     if thorough:
@@ -182,14 +207,16 @@ def run_component(ctx):
     # 2. the real timing platform
     n1, n2 = (60, 30) if thorough else (10, 4)
     total = {'scenarios': 0}
+    multi = 0
     parts_all = []
     first = None
-    for ng, n in ((1, n1), (2, n2)):
-        scen = directed(ng)[:(4 if thorough else 2)] + [gen_scenario(rng, i, ng) for i in range(n)]
-        t, stats = run_scenarios(ctx, drv, scen, '%dgpu' % ng)
+    for ng, n in ((1, n1), (2, n2), ('emu', n2)):
+        scen = ([] if ng == 'emu' else directed(ng)[:(4 if thorough else 2)]) + [gen_scenario(rng, i, ng) for i in range(n)]
+        t, stats = run_scenarios(ctx, drv, scen, '%sgpu' % ng)
         if t is None:
             continue
         total['scenarios'] += stats['scenarios']
+        multi += sum(1 for x in scen if len(set(x.get('ctx', [1]))) > 1)
         first = first or t
         common.validate_and_triage(ctx, tspec(ng), t, {'cmd': 'c12mem', 'ng': ng, 'scenarios': scen})
         parts_all += vlib.split_traces(t)
@@ -199,7 +226,7 @@ def run_component(ctx):
     ctx.log('memory part: %d runs of the timing platform, %d operations, %d read-backs judged, %d runs with a copy overlapping '
             'another queue\'s kernel' % (len(parts_all), ops, reads, nt))
     ctx.cov['mem_part'] = {'platform_runs': len(parts_all), 'operations': ops, 'read_backs_judged': reads,
-                           'runs_with_copy_overlapping_foreign_kernel': nt}
+                           'runs_with_copy_overlapping_foreign_kernel': nt, 'runs_with_one_address_space_per_queue': multi}
     if parts_all and nt == 0:
         raise vlib.Infra('memory part: no run had a copy overlapping another queue\'s kernel (vacuous)')
     if parts_all:
